@@ -155,24 +155,25 @@ unsafe impl Send for Pump {}
 
 fn cert_files(rsa: bool) -> (String, String) {
     use s2n_quic_core::crypto::tls::testing::certificates as c;
-    use std::sync::OnceLock;
-    static FILES: OnceLock<[(String, String); 2]> = OnceLock::new();
-    let f = FILES.get_or_init(|| {
-        // one directory shared by all shard processes: the contents are constants, written atomically
-        let dir = std::env::temp_dir().join("c07-interop-certs");
-        std::fs::create_dir_all(&dir).expect("temp dir for the PEM files");
-        let w = |name: &str, data: &str| {
-            let p = dir.join(name);
-            if std::fs::read_to_string(&p).map(|s| s != data).unwrap_or(true) {
-                let tmp = dir.join(format!("{name}.{}.tmp", std::process::id()));
-                std::fs::write(&tmp, data).expect("write PEM file");
-                std::fs::rename(&tmp, &p).expect("publish PEM file");
-            }
-            p.display().to_string()
-        };
-        [(w("cert.pem", c::CERT_PEM), w("key.pem", c::KEY_PEM)), (w("cert_rsa.pem", c::CERT_PKCS1_PEM), w("key_rsa.pem", c::KEY_PKCS1_PEM))]
-    });
-    f[rsa as usize].clone()
+    // quiche loads certificates from files only. One directory under the harness's own output root (not /tmp), shared by
+    // all shard processes: the contents are constants, written atomically, and checked again for every case so that a
+    // cleaner removing them in the middle of a long run does no harm.
+    let dir = vcore::verif_root().join("out").join("c07-interop-certs");
+    std::fs::create_dir_all(&dir).expect("directory for the PEM files");
+    let w = |name: &str, data: &str| {
+        let p = dir.join(name);
+        if std::fs::read_to_string(&p).map(|s| s != data).unwrap_or(true) {
+            let tmp = dir.join(format!("{name}.{}.tmp", std::process::id()));
+            std::fs::write(&tmp, data).expect("write PEM file");
+            std::fs::rename(&tmp, &p).expect("publish PEM file");
+        }
+        p.display().to_string()
+    };
+    if rsa {
+        (w("cert_rsa.pem", c::CERT_PKCS1_PEM), w("key_rsa.pem", c::KEY_PKCS1_PEM))
+    } else {
+        (w("cert.pem", c::CERT_PEM), w("key.pem", c::KEY_PEM))
+    }
 }
 
 pub fn quiche_config(case: &Case) -> quiche::Config {
